@@ -356,6 +356,9 @@ def gen_program(rng, n_meas=None, n_ops=None, rational_only=False, allow_pairs=T
             return c
 
         def pair():
+            earlier = [r for st in steps if st[0] == "bin" for r in st[2:4] if r[0] == "pair"]
+            if earlier and rng.random() < 0.3:
+                return list(rng.choice(earlier))      # an EQUAL pair: still a new, independent measurement
             v = dyadic(rng, -2, 6)
             if abs(v) < 0.25:
                 v = 1.0 + abs(v)
